@@ -329,7 +329,8 @@ class StreamEngine(engines.HistEngine):
                 open(sched, "w").close()
             hist_arg = ":".join(([witness] if witness else []) + [sched] + unary_corpus)
             n_unary = P[tier]["VERIF_N"] if tier in P else P["quick"]["VERIF_N"]
-            rc, hout, trace = self.run_sched(scratch, gen, hist_arg, n_unary, seed, "t", nogate=nogate)
+            rc, hout, trace = self.run_sched(scratch, gen, hist_arg, n_unary, seed, "t", nogate=nogate,
+                                             timeout=240 if tier == "quick" else 3000)
             harness_ok = rc == 0 and os.path.exists(trace)
             results, hists = [], []
             if harness_ok:
